@@ -13,7 +13,7 @@ def canon_clause(l):
 class C10(Property):
     id = "C10"
     families = ["enc"]
-    rule = ("compact frameworks (ICCMA route incl. duplicate attack lines, and removal-free histories): exhaustive digraphs n<=2 (quick) / n<=3 (thorough), random and structured up to 7 arguments, funnels on both sides "
+    rule = ("compact frameworks (ICCMA route incl. duplicate attack lines, and removal-free histories): exhaustive digraphs n<=2 (quick) / n<=3 (thorough), random and structured up to 7 arguments, sparse frameworks of 9-30 arguments with a hub of 7-12 attackers (clause-level comparison only), funnels on both sides "
             "of the hybrid threshold (defender-set products 16, 31/32/33 by mixed sizes, 64); x 9 public encoder constructors x {plain, range}; compared: reserve calls, clause multiset, n_vars, arg_to_lit, first_range_var, "
             "assignment_to_extension on random assignments, second encoding on the same encoder object; bounded all-models oracle when <= 16 variables; non-trivial = framework with an attack")
     assumptions = ["permutator::cart_prod modelled as the cartesian product (order ignored)",
@@ -25,6 +25,8 @@ class C10(Property):
             fws += list(gen.all_digraphs(n))
         for _ in range(330 if tier == "quick" else 9000):
             fws.append(gen.random_framework(rng, 7))
+        for _ in range(25 if tier == "quick" else 600):
+            fws.append(gen.medium_framework(rng, 9, 30))
         for (a, b) in [(4, 2), (5, 2), (6, 2), (2, 4), (3, 3), (1, 31), (1, 32), (1, 33), (2, 6), (3, 4)]:
             fws.append(gen.funnel(a, b))
         # mixed-size defender sets around the threshold: 4*8=32, 3*11=33, 31
